@@ -34,6 +34,21 @@ check("C08",
       "Coq proof (refinement + induction, lia) + extracted-model correspondence vs Python and Rust",
       "DESIGN.md 5 C08")
 
+check("C01",
+      "Coq theorems over an executable model of the decoder (every operand class's reads and checks in source order, iter_decode/fusion with its one-instruction lookahead, the four consumers): "
+      "length bounds (1..7, <= bytes supplied), the consumed bytes re-encode exactly, the result is independent of every byte beyond its length (all instructions except a lone prefix byte), "
+      "info-accept implies text/llil/emulator-fetch accept with the same length and instruction for any memory continuation, and no consumer can crash - for all byte strings, no bound. "
+      "Table-dependent side conditions are vm_compute facts over the opcode table regenerated from the source each run. The model is tied to the real decoder, arch callbacks and Emulator.decode_instruction by a correspondence run over the structural enumeration.",
+      "Trusted: Coq kernel, translator tr_tables.py, extraction, harness/py/dec_cmd.py. Modelled not verified: opcodes.py decode/encode/fusion, arch.py callbacks, Emulator.decode_instruction. Determinism/history independence is by construction in the model and established for the code by in-process re-decoding. Known finding: lone prefix byte.",
+      "Coq proof (reader lemmas per operand shape, lifted through lookahead/fusion) + extracted-model correspondence",
+      "DESIGN.md 5 C01")
+check("C02",
+      "Coq theorems: encode (decode bs) = the consumed bytes (prefix byte and ignored bits included, because the model's operand records retain exactly the raw bytes the code retains), decode (encode i ++ t) = i for every tail t, "
+      "and the text callback's round-trip guard never rejects a decoded instruction - for all byte strings. Tied to the code by correspondence over the structural enumeration plus every don't-care bit pattern, and by a second-decode comparison of text, length and lifted IL on the implementation.",
+      "Trusted: as C01. IL equality on the implementation is compared on the MockLLIL dump with labels renamed by order of appearance.",
+      "Coq proof + extracted-model correspondence + implementation round-trip oracle",
+      "DESIGN.md 5 C02")
+
 NOT_APPLICABLE = {}
 
 def build():
